@@ -103,8 +103,16 @@ PLAIN = set(range(32, 127)) - set(b"=<>;\\\"()'")
 T1, T2, T3, T4 = b"\r\n\t", b"\r\n\t\t", b"\r\n\t\t\t", b"\r\n\t\t\t\t"
 
 
+NAME_CHARS = set(range(32, 127)) - set(b'"\\\';{}')
+
+
 def plain_text(s, what, allow_empty=True):
     b = s.encode("utf-8") if isinstance(s, str) else s
+    if what in ("operation name", "attribute name", "parameter name", "literal", "association name"):
+        # a member's NAME is read as it stands between its quotes (K-C19-7 repaired): = < > ( ) , : are ordinary characters
+        if any(c not in NAME_CHARS for c in b) or b != b.strip() or (not b and not allow_empty):
+            raise Unencodable("%s %r cannot stand in a blob header" % (what, s))
+        return b
     value = what in ("default", "comment", "multiplicity", "modifier", "typeModifier", "initialValue_string", "defaultValue_string")
     if any(c not in PLAIN for c in b) or b != b.strip() or b"," in b and not (value and b.replace(b",", b"").strip()) or (not b and not allow_empty):
         raise Unencodable("%s %r is not plain text" % (what, s))
